@@ -305,6 +305,14 @@ theorem cctpDepositForBurn_noPanic (cfg : Cfg) (c : Ctx) (amount : Int) (domain 
   apply Res.PanicsIn.guard; intro _
   exact Res.PanicsIn.pure _
 
+theorem hookFor_noPanic (e : ExtState) (h : Bytes) : (hookFor e h).NoPanic := by
+  unfold hookFor
+  split
+  · exact Res.PanicsIn.pure _
+  · split
+    · exact Res.PanicsIn.pure _
+    · exact Res.PanicsIn.err _
+
 /-- The warp module panics on an invalid max-fee coin; the attribute validation excludes it. -/
 theorem warpRemoteTransfer_noPanic (cfg : Cfg) (c : Ctx) (token hook : Bytes) (domain : Nat) (amount gas feeAmt : Int) (feeDenom : String)
     (hfee : (decide (feeAmt < 0) || (feeAmt != 0 && !validDenom feeDenom)) = false) :
@@ -321,7 +329,8 @@ theorem warpRemoteTransfer_noPanic (cfg : Cfg) (c : Ctx) (token hook : Bytes) (d
     | none => simp only [Res.bind_err]; exact Res.PanicsIn.err _
     | some rgas =>
       simp only [Res.bind_ok, hfee, Bool.false_eq_true, ↓reduceIte]
-      apply Res.PanicsIn.guard; intro _
+      refine Res.PanicsIn.bind (P := fun _ => False) (hookFor_noPanic _ _) ?_
+      intro hk _
       split
       · exact Res.PanicsIn.pure _
       · intro s h
